@@ -72,6 +72,47 @@ def check(run, ctx):
     run.extra["sinks_with_known_dimension"] = n_known
     run.extra["sinks_untraceable"] = n_top
 
+    B5 = run.rule("B5", "line and column of a violation (or of the record it is built from) are taken from the same syntax node", floor=25,
+                  decides="the column lies within the reported line")
+    def pos_base(e):
+        if isinstance(e, ast.BinOp) and isinstance(e.right, ast.Constant):
+            e = e.left
+        if isinstance(e, ast.Subscript) and isinstance(e.value, ast.Attribute) and e.value.attr in ("start_point", "end_point"):
+            return ast.unparse(e.value.value)
+        if isinstance(e, ast.Attribute) and e.attr in ("lineno", "col_offset", "end_lineno", "end_col_offset"):
+            return ast.unparse(e.value)
+        return None
+    for f in sorted(ctx.repo.funcs.values(), key=lambda x: x.qual):
+        if not f.module.name.startswith("src.linters") or f.parent is not None:
+            continue
+        for c in ast.walk(f.node):
+            pairs = []
+            if isinstance(c, ast.Call):
+                kw = {k.arg: k.value for k in c.keywords if k.arg}
+                pairs.append((kw.get("line") if kw.get("line") is not None else kw.get("line_number"), kw.get("column")))
+            elif isinstance(c, ast.Dict):
+                d = {k.value: v for k, v in zip(c.keys, c.values) if isinstance(k, ast.Constant)}
+                pairs.append((d.get("line"), d.get("column")))
+            # local pair: line = X.start_point[0] + 1 ; column = Y.start_point[1] in one function, fed to one call
+            for ln, col in pairs:
+                if ln is None or col is None:
+                    continue
+                lb = pos_base(ln)
+                if lb is None and isinstance(ln, ast.Name) and isinstance(col, ast.Name):
+                    defs = {n.targets[0].id: n.value for n in ast.walk(f.node) if isinstance(n, ast.Assign) and len(n.targets) == 1 and isinstance(n.targets[0], ast.Name)}
+                    if ln.id in defs and col.id in defs:
+                        ln, col = defs[ln.id], defs[col.id]
+                        lb = pos_base(ln)
+                if lb is None:
+                    continue
+                sym = f"{f.qual.replace('src.linters.', '')}:{norm(ln)}"
+                if isinstance(col, ast.Constant):
+                    run.ok(B5, sym, f"constant column {col.value}", nontrivial=False)
+                elif pos_base(col) == lb:
+                    run.ok(B5, sym, f"line and column both from `{lb}`")
+                else:
+                    run.finding(B5, f.qual.replace("src.linters.", ""), f"column-from-other-node:{norm(col)}", f"line is taken from `{lb}` ({norm(ln)}) but column from `{norm(col)}`: for a construct spanning several lines the column can lie outside the reported line", f"{f.module.rel}:{c.lineno}")
+
     B2 = run.rule("B2", "file-level violations (file-placement, missing header, orphaned header entry) use a constant line >= 1", floor=4)
     for sk in sinks:
         e = sk["args"].get("line")
